@@ -5,12 +5,16 @@ from vt.core import SubCheck, Violation
 from hypothesis import strategies as st
 
 from vt.props.c06 import (INF, agree, astar_cases, build_network, edge_points, enum_small, expand_small, graph_cases, handle,
-                          history_cases, is_exact, model, run_history, _validate, _validate_astar, _validate_hist)
+                          history_cases, how_labels, is_exact, model, run_history, _validate, _validate_astar, _validate_hist)
 
 ASSUMPTIONS = [
     "oracle distance = Floyd-Warshall over arcs (src->tgt when orientation >= 0, tgt->src when orientation <= 0)",
     "networks are built the way NetworkReader builds them: every edge geometry runs stored source -> stored target, "
     "node positions are the geometry end points (so coincident nodes and interior vertices on a node are possible)",
+    "source and target are handed over (independently, case field how of c06) as id, as the network's own Node object, as "
+    "a Node(id, coord) constructed for the query, as the Node object created for a later edge row (not the one the network "
+    "kept), or as the Node object of a twin network built from the same case and searched before: Node equality is id based "
+    "and the signature says Union[int, Node], so each of them names the network's node and the same path is demanded",
     "any optimal route is accepted: the node list must be a permitted walk, and SOME choice of edges for its hops must "
     "have weight sum = true distance and chained geometries (each oriented along travel, first vertex dropped) equal "
     "to the returned coordinates exactly (coordinates are copied, never computed)",
@@ -50,7 +54,7 @@ def check_path(case, net, s, t, D, exact):
     """returns None (nothing demanded / unreachable handled) or a set of labels describing the accepted path"""
     ids, pos = case["ids"], case["pos"]
     want = D[(s, t)]
-    tr = net.shortest_path(handle(net, case, s), handle(net, case, t))
+    tr = net.shortest_path(handle(net, case, s), handle(net, case, t, "t"))
     name = "%s->%s" % (ids[s], ids[t])
     if want == INF:
         if tr is not None:
@@ -108,7 +112,7 @@ def check_path(case, net, s, t, D, exact):
     if not agree(states[last], want, exact):
         raise Violation("geometry-of-costlier-edges", "%s: path %r: the edges whose geometry is returned cost %r, true "
                         "distance %r" % (name, path, states[last], want))
-    got = net.shortest_distance(handle(net, case, s), handle(net, case, t))
+    got = net.shortest_distance(handle(net, case, s), handle(net, case, t, "t"))
     if not agree(got, want, exact):
         raise Violation("distance-disagrees", "%s: shortest_distance = %r, path and oracle say %r" % (name, got, want))
     # labels for the non-trivial rule
@@ -155,6 +159,7 @@ def _finish(case, labels, exact, n):
     if case.get("abscurv"):
         labels.add("abs_curv-geometries")
     labels.add("exact-weights" if exact else "float-weights")
+    labels.update(how_labels(case))
     if case.get("astar") is not None:
         labels.add("astar_wgt=%g" % case["astar"])
     nt = bool(labels & {"mh-against-storage", "mh-zero-weight", "mh-parallel-different-weight"})
@@ -201,7 +206,8 @@ def strat_astar():
 RULE = ("paths: Hypothesis multigraphs of 1..12 nodes and 0..40 edges as for C06 (self-loops, parallel / anti-parallel edges, "
         "3 orientations, zero weights, exact and float weights) with 0..2 interior vertices per edge on a quarter lattice, "
         "node positions on an 8x8 lattice (coincidences allowed), with/without abs_curv; every ordered pair s != t through "
-        "shortest_path. small: every edge sequence of length <= 2 (quick) / <= 3 (thorough) over 3 nodes, weights {0,1,2}, "
+        "shortest_path, source and target handed over as id / own Node / fresh equal Node / Node of a later edge row / Node of "
+        "a searched twin network (labels src-as=*, tgt-as=*; enumerated spaces: fixed function of the edge sequence). small: every edge sequence of length <= 2 (quick) / <= 3 (thorough) over 3 nodes, weights {0,1,2}, "
         "edge k carrying k%3 private interior vertices. Non-trivial: some returned path has >= 2 hops and a hop whose returned "
         "geometry is that of a cheapest edge stored against the direction of travel, or whose cheapest edge has zero weight, "
         "or that has parallel candidate edges of different weight. "
